@@ -12,29 +12,40 @@ EXTENDS Tree, TraceLib, Integers
 
 S == Ev.s
 
+\* Several containers in one scenario (copies): the Tree variables describe the CURRENT
+\* container `cur`, the others are parked in `saved` (id -> record of their variables).
+\* "Switch" parks the current one and loads another; "Copy" parks a copy of the current
+\* one under a new (copy construction) or existing (assignment) id; "Watch" compares the
+\* state read back from a parked container with its record (CopyIndependent: it is
+\* logged after every edit of another container).
+VARIABLES saved, cur
+Rec == [directed |-> directed, nodes |-> nodes, edges |-> edges, nextN |-> nextN, nextE |-> nextE,
+        root |-> root, eObj |-> eObj, valid |-> valid, cache |-> cache]
+
 NoDup(s) == Cardinality(SeqToSet(s)) = Len(s)
 Keys(ps) == {ps[i][1] : i \in DOMAIN ps}
 Val(ps, k) == ps[CHOOSE i \in DOMAIN ps : ps[i][1] = k][2]
 
-\* the state read back through public const queries = the model's next state
-ProjOK ==
-  /\ directed' = S.d /\ root' = S.root
-  /\ NoDup(S.n) /\ nodes' = SeqToSet(S.n)
-  /\ Keys(S.e) = DOMAIN edges' /\ Len(S.e) = Cardinality(DOMAIN edges')
-  /\ \A i \in DOMAIN S.e :
-       LET x == S.e[i] IN
-         IF directed' THEN edges'[x[1]] = <<x[2], x[3]>>
-                      ELSE Unordered(edges'[x[1]]) = {x[2], x[3]}          \* orientation is meaningless when unrooted
+\* the state read back through public const queries = the state st of the model
+ProjRec(st, P) ==
+  /\ st.directed = P.d /\ st.root = P.root
+  /\ NoDup(P.n) /\ st.nodes = SeqToSet(P.n)
+  /\ Keys(P.e) = DOMAIN st.edges /\ Len(P.e) = Cardinality(DOMAIN st.edges)
+  /\ \A i \in DOMAIN P.e :
+       LET x == P.e[i] IN
+         IF st.directed THEN st.edges[x[1]] = <<x[2], x[3]>>
+                        ELSE Unordered(st.edges[x[1]]) = {x[2], x[3]}          \* orientation is meaningless when unrooted
   \* node table and edge table tell the same story
-  /\ Keys(S.o) = nodes' /\ Len(S.o) = Cardinality(nodes')
-  /\ Keys(S.i) = nodes' /\ Len(S.i) = Cardinality(nodes')
-  /\ \A n \in nodes' : /\ SeqToSet(Val(S.o, n)) = OutN(edges', directed', n)
-                       /\ SeqToSet(Val(S.i, n)) = InN(edges', directed', n)
+  /\ Keys(P.o) = st.nodes /\ Len(P.o) = Cardinality(st.nodes)
+  /\ Keys(P.i) = st.nodes /\ Len(P.i) = Cardinality(st.nodes)
+  /\ \A n \in st.nodes : /\ SeqToSet(Val(P.o, n)) = OutN(st.edges, st.directed, n)
+                          /\ SeqToSet(Val(P.i, n)) = InN(st.edges, st.directed, n)
   \* attached edge objects, both maps of the observer
-  /\ Keys(S.eo) = DOMAIN eObj' /\ Len(S.eo) = Cardinality(DOMAIN eObj')
-  /\ \A e \in DOMAIN eObj' : Val(S.eo, e) = eObj'[e]
-  /\ Keys(S.oe) = {eObj'[e] : e \in DOMAIN eObj'} /\ Len(S.oe) = Len(S.eo)
-  /\ \A e \in DOMAIN eObj' : Val(S.oe, eObj'[e]) = e
+  /\ Keys(P.eo) = DOMAIN st.eObj /\ Len(P.eo) = Cardinality(DOMAIN st.eObj)
+  /\ \A e \in DOMAIN st.eObj : Val(P.eo, e) = st.eObj[e]
+  /\ Keys(P.oe) = {st.eObj[e] : e \in DOMAIN st.eObj} /\ Len(P.oe) = Len(P.eo)
+  /\ \A e \in DOMAIN st.eObj : Val(P.oe, st.eObj[e]) = e
+ProjOK == ProjRec([directed |-> directed', nodes |-> nodes', edges |-> edges', root |-> root', eObj |-> eObj'], S)
 
 Out == res' = Ev.r
 Same == UNCHANGED vars
@@ -42,6 +53,44 @@ Same == UNCHANGED vars
 TReset == /\ IsEvent("Reset")
           /\ directed' = Ev.d /\ nodes' = {} /\ edges' = <<>> /\ nextN' = 0 /\ nextE' = 0 /\ root' = 0
           /\ eObj' = <<>> /\ valid' = FALSE /\ cache' = FALSE /\ res' = "ok" /\ op' = <<"-", None>>
+          /\ saved' = <<>> /\ cur' = 0
+
+Load(st) == /\ directed' = st.directed /\ nodes' = st.nodes /\ edges' = st.edges /\ nextN' = st.nextN
+            /\ nextE' = st.nextE /\ root' = st.root /\ eObj' = st.eObj /\ valid' = st.valid /\ cache' = st.cache
+            /\ res' = "ok" /\ op' = <<"-", None>>
+TSwitch == /\ IsEvent("Switch") /\ Ev.to \in DOMAIN saved /\ Ev.to # cur
+           /\ saved' = [o \in (DOMAIN saved \cup {cur}) \ {Ev.to} |-> IF o = cur THEN Rec ELSE saved[o]]
+           /\ cur' = Ev.to /\ Load(saved[Ev.to])
+\* copy construction / clone / assignment of the graph container: structure, id counters
+\* and cached flag of the source; edge objects live in observers, a fresh copy has none.
+\* The copy read back right away must be the source's graph (CopyEqual).
+TCopy == /\ IsEvent("Copy") /\ Ev.src = cur /\ Ev.dst # cur
+         /\ (Ev.how = "assign") = (Ev.dst \in DOMAIN saved)
+         /\ saved' = [o \in DOMAIN saved \cup {Ev.dst} |-> IF o = Ev.dst THEN [Rec EXCEPT !.eObj = <<>>] ELSE saved[o]]
+         /\ ProjRec(saved'[Ev.dst], S)
+         /\ UNCHANGED <<vars, cur>>
+TWatch == /\ IsEvent("Watch") /\ Ev.obj \in DOMAIN saved
+          /\ ProjRec(saved[Ev.obj], S)
+          /\ UNCHANGED <<vars, saved, cur>>
+\* a copy of the OBSERVER is a second view on the same graph with copies of the objects:
+\* asked about the current container it answers like the model; its edge objects are
+\* those attached when it was made (Ev.fresh) minus what was deleted since
+TQView ==
+  /\ IsEvent("QView") /\ QStruct /\ ProjOK
+  /\ Ev.d = B(directed)
+  /\ Ev.v \in {"T", "F"} => (Ev.v = "T") = valid
+  /\ \A i \in DOMAIN Ev.eo : Ev.eo[i][1] \in DOMAIN eObj /\ eObj[Ev.eo[i][1]] = Ev.eo[i][2]
+  /\ Ev.fresh => Keys(Ev.eo) = DOMAIN eObj
+  \* the view knows the nodes it was made with (not those created since), forgets deleted ones,
+  \* and lists the objects it knows
+  /\ LET K == SeqToSet(Ev.known) IN
+       /\ K \subseteq nodes /\ (Ev.fresh => K = nodes)
+       /\ {Ev.rows[i][1] : i \in DOMAIN Ev.rows} = K
+       /\ (directed /\ valid) => \A i \in DOMAIN Ev.rows :
+            LET x == Ev.rows[i]  n == x[1] IN
+              /\ SeqToSet(x[2]) = Sons(edges, n) \cap K
+              /\ x[3] = (IF HasFather(edges, n) /\ Father(edges, n) \in K THEN Father(edges, n) ELSE -1)
+              /\ SeqToSet(x[4]) = LeavesUnder(edges, n) \cap K
 
 TCreateNode == IsEvent("CreateNode") /\ CreateNode /\ Out /\ Ev.id = nextN /\ ProjOK
 TAddSon     == IsEvent("AddSon") /\ AddSon(Ev.a[1], Ev.a[2], Ev.a[3]) /\ Out /\ ProjOK
@@ -160,9 +209,11 @@ TQPathObj ==
          /\ x[5] = [j \in 1..Len(SelectSeq(q, LAMBDA e : e \in DOMAIN eObj)) |->
                       eObj[SelectSeq(q, LAMBDA e : e \in DOMAIN eObj)[j]]]
 
-TraceNext == TSetOutGroup \/ TRemoveSons \/ TQObj \/ TQEdgeObj \/ TQPathObj \/ TReset \/ TCreateNode \/ TAddSon \/ TLink \/ TSetFather \/ TRemoveSon \/ TUnlink \/ TDeleteNode
-             \/ TSetRoot \/ TRootAt \/ TUnRoot \/ TQValid \/ TQRooted
-             \/ TQFather \/ TQSons \/ TQLeaves \/ TQSub \/ TQPath \/ TQMrca
-TraceInit == Init /\ directed = TRUE /\ l = 1
-TraceSpec == TraceInit /\ [][TraceNext]_<<vars, l>>
+Single == TSetOutGroup \/ TRemoveSons \/ TQObj \/ TQEdgeObj \/ TQPathObj \/ TQView
+          \/ TCreateNode \/ TAddSon \/ TLink \/ TSetFather \/ TRemoveSon \/ TUnlink \/ TDeleteNode
+          \/ TSetRoot \/ TRootAt \/ TUnRoot \/ TQValid \/ TQRooted
+          \/ TQFather \/ TQSons \/ TQLeaves \/ TQSub \/ TQPath \/ TQMrca
+TraceNext == (Single /\ UNCHANGED <<saved, cur>>) \/ TReset \/ TSwitch \/ TCopy \/ TWatch
+TraceInit == Init /\ directed = TRUE /\ l = 1 /\ saved = <<>> /\ cur = 0
+TraceSpec == TraceInit /\ [][TraceNext]_<<vars, l, saved, cur>>
 =============================================================================
